@@ -523,6 +523,11 @@ func (c *Collection) DropIndex(name string) ([]string, error) {
 			return nil, fmt.Errorf("missing index %q", name)
 		}
 
+		// the _id index cannot be dropped
+		if name == "_id_" {
+			return nil, fmt.Errorf("cannot drop _id index")
+		}
+
 		// drop index
 		delete(c.Indexes, name)
 
